@@ -2,6 +2,8 @@ package interp
 
 import (
 	"fmt"
+	"runtime"
+	"go/types"
 	"sync"
 	"sync/atomic"
 	"time"
@@ -141,6 +143,7 @@ func RunUnits(p *Program, units []*Unit, opts Options) ([]*UnitResult, SolverTot
 		wg.Add(1)
 		go func() {
 			defer wg.Done()
+			runtime.LockOSThread()
 			m, err := NewMachine(p, opts.Solver, opts.TimeoutMs)
 			if err != nil {
 				s.mu.Lock()
@@ -278,4 +281,30 @@ func FindEntry(p *Program, pkgPath, name string) (*ssa.Function, error) {
 		return nil, fmt.Errorf("no function %s in %s", name, pkgPath)
 	}
 	return f, nil
+}
+
+// EvalStrings runs a concrete function of the harness returning []string.
+func EvalStrings(p *Program, pkgPath, name string) ([]string, error) {
+	fn, err := FindEntry(p, pkgPath, name)
+	if err != nil {
+		return nil, err
+	}
+	m := &Machine{P: p, Stats: NewStats(), StepBudget: 200_000_000, DepthMax: 3000,
+		constC: map[*ssa.Const]Value{}, identC: map[[2]types.Type]bool{}}
+	m.resetPath()
+	var out []string
+	var rerr error
+	func() {
+		defer func() {
+			if r := recover(); r != nil {
+				rerr = fmt.Errorf("EvalStrings %s: %v", name, r)
+			}
+		}()
+		m.initGlobals()
+		v := m.call(fn, nil)
+		for _, x := range v.([]Value) {
+			out = append(out, x.(string))
+		}
+	}()
+	return out, rerr
 }
